@@ -23,7 +23,30 @@ def lidx(world, j):
     return 0 if j is None else j + 1
 
 
+def sync_twins(world):
+    """A twin is a second instance of the original's method: what the *method* carries (the expectedFailure marker) is the
+    original's, whatever a generator wrote into the twin's own record afterwards."""
+    ts = world['tests']
+    for T in ts:
+        if 'twin_of' in T:
+            o = ts[T['twin_of']]
+            assert 'twin_of' not in o and not o.get('deco_skip'), 'invalid twin'
+            T.pop('xf', None)
+            T.pop('deco_skip', None)
+            if o.get('xf'):
+                T['xf'] = True
+            T['layer'] = o['layer']
+    return world
+
+
+def drop_test(ts, i):
+    """tests without number i: its twins go with it, the other twins are re-pointed."""
+    return [dict(T, twin_of=T['twin_of'] - (T['twin_of'] > i)) if 'twin_of' in T else T
+            for k, T in enumerate(ts) if k != i and T.get('twin_of') != i]
+
+
 def g_world(world, mod):
+    sync_twins(world)
     names = [UNIT] + ['%s.%s' % (mod, L['name']) for L in world['layers']]
     bases = [[]] + [[b + 1 for b in L['bases']] for L in world['layers']]
     lw = '{| names := %s; bases := %s; unit_layer := Some 0%%nat |}' % (
@@ -38,10 +61,10 @@ def g_world(world, mod):
             sc('setUp'), sc('tearDown'), g_bool('testSetUp' in h), g_bool('testTearDown' in h)))
     tests = []
     for T in world['tests']:
-        tests.append('{| t_layer := %d; t_deco := %s; t_xf := %s; t_su := %s; t_subs := %s; t_body := %s; t_td := %s; t_cl := %s |}' % (
+        tests.append('{| t_layer := %d; t_deco := %s; t_xf := %s; t_su := %s; t_subs := %s; t_body := %s; t_td := %s; t_cl := %s; t_count := %d |}' % (
             lidx(world, T['layer']), g_bool(T.get('deco_skip', False)), g_bool(T.get('xf', False)),
             po(T.get('setUp', 'ok')), g_list([po(x) for x in T.get('subs', [])]), po(T.get('body', 'ok')),
-            po(T.get('tearDown', 'ok')), g_list([po(x) for x in T.get('cleanups', [])])))
+            po(T.get('tearDown', 'ok')), g_list([po(x) for x in T.get('cleanups', [])]), int(T.get('count', 1))))
     return '{| lw := %s; lsp := %s; tests := %s |}' % (lw, g_list(specs), g_list(tests))
 
 
@@ -192,6 +215,8 @@ def gen_test(rng, nlayers, rich=True):
     r = rng.random()
     if r < 0.12:
         T['deco_skip'] = True
+        if rng.random() < 0.2:
+            T['count'] = 2
         return T
     if r < 0.3:
         T['xf'] = True
@@ -205,6 +230,8 @@ def gen_test(rng, nlayers, rich=True):
         T['tearDown'] = rng.choice(OUTS_BAD)
     if rng.random() < 0.2:
         T['cleanups'] = [rng.choice(['ok', 'ok', 'fail', 'error', 'skip']) for _ in range(rng.randint(1, 2))]
+    if rng.random() < 0.1:
+        T['count'] = rng.choice([2, 3, 5])      # a composite case: countTestCases() > 1
     return T
 
 
@@ -228,6 +255,14 @@ def gen_world(rng, max_layers=4, max_tests=7, opts='any', faults=True, rich=True
             options.append(rng.choice(['-c', '-p', '--buffer', '-vvv']) if rng.random() < 0.8 else '--xml=xmlout')
     elif isinstance(opts, list):
         options = list(opts)
+    if rich and tests and rng.random() < 0.12:
+        # an equal-but-distinct second instance of some test (same class and method: TestCase.__eq__ / __hash__ agree)
+        i = rng.randrange(len(tests))
+        if not tests[i].get('deco_skip'):
+            tw = dict(tests[i], twin_of=i)
+            if rng.random() < 0.5:
+                tw['count'] = rng.choice([1, 2, 4])
+            tests.append(tw)
     world = {'layers': layers, 'tests': tests, 'options': options}
     # how the run is started: the Runner class directly, or the public entry points that turn its verdict into a
     # return value (run_internal) or an exit status (run)
